@@ -240,6 +240,9 @@ wait:
 	}
 	c.Cov["exhaustive"] = c.thorough()
 
+	// 2b. every container x every (message, field) in small element counts
+	containerFieldSweep(c, p)
+
 	// 3. byte-string totality through every entry point and chunking
 	pool := validPool(p, sch, rng, 4000, c.pick(20, 100))
 	var calls []*Call
